@@ -14,3 +14,8 @@ open GoSQLXModel
 #print axioms Props.C06.gen_prec_table
 #print axioms Props.C06.written_expression_reads_back
 #print axioms Props.C06.serialiser_writes_reference_rendering
+#print axioms Lex.quoted_name_reads_back
+#print axioms Props.C06.quoted_name_is_read_back
+#print axioms Props.C06.unsafe_name_is_written_so_that_it_reads_back
+#print axioms Props.C06.name_with_dot_is_written_bare
+#print axioms Props.C06.name_with_digit_first_is_written_bare
